@@ -258,9 +258,9 @@ def check_avdtp_wire(rec: Rec):
                 rec.bad(key, 'avdtp_wire', {'unit': 'avdtp_single_packet', 'how': 'header_bytes', 'cls': cls.__name__}, f'{cls.__name__} label {label}: sent {[p.hex() for p in ch.sent]} expected {ref.hex()}', case)
             elif len(got) != 1 or got[0][0] != label or type(got[0][1]) is not cls or got[0][1].payload != body:
                 rec.bad(key, 'avdtp_wire', {'unit': 'avdtp_single_packet', 'how': 'reassembled_differs', 'cls': cls.__name__}, f'{cls.__name__} label {label}: assembler delivered {[(l, type(m).__name__) for l, m in got]}', case)
-            elif asm.message is not None or asm.packet_count != 0 or asm.number_of_signal_packets != 0:
-                rec.bad(key, 'assembler_state', {'unit': 'avdtp.MessageAssembler', 'how': 'state_not_reset_after_complete_message'}, f'{cls.__name__} label {label}: after a complete message the assembler holds message={asm.message!r} packet_count={asm.packet_count}', case)
             else:
+                # (whether the assembler is ready for the next message is judged by the next message - the same assembler
+                # serves all 16 labels -, not by the values of its private fields)
                 rec.ok(key)
 
 
@@ -460,8 +460,6 @@ def check_avctp(rec: Rec, quick: bool):
                         rec.bad(key, 'avctp', {'unit': 'avctp_single_packet', 'how': 'header_bytes', 'command': is_command, 'ipid': ipid}, f'{case}: sent {[cm.short(p) for p in ch.sent]} expected {cm.short(ref)}', case)
                     elif got != [(label, is_command, ipid, pid, payload)]:
                         rec.bad(key, 'avctp', {'unit': 'avctp_single_packet', 'how': 'parsed_differs', 'command': is_command, 'ipid': ipid}, f'{case}: assembler delivered {[(g[0], g[1], g[2], g[3], len(g[4])) for g in got]}', case)
-                    elif asm.payload != b'' or asm.transaction_label != -1 or asm.packets_received != 0:
-                        rec.bad(key, 'assembler_state', {'unit': 'avctp.MessageAssembler', 'how': 'state_not_reset_after_complete_message'}, f'{case}: after a complete message the assembler holds label={asm.transaction_label} payload={len(asm.payload)}B packets_received={asm.packets_received}', case)
                     else:
                         rec.ok(key)
     rec.st.count('avctp_cases', n)
